@@ -140,10 +140,10 @@ func init() {
 	base := *worldProps["C11"]
 	base.Name = "C11AVS"
 	w := avsWeights()
-	for k, v := range map[string]int{"payFee": 3, "nativeDelegate": 2, "optIn": 2, "optOut": 1, "setKey": 1, "undelegate": 4, "depositNST": 1, "nstUpdate": 1, "regToken": 3, "regChain": 1, "updToken": 1, "rawCall": 14} {
+	for k, v := range map[string]int{"payFee": 3, "nativeDelegate": 2, "optIn": 2, "optOut": 1, "setKey": 1, "undelegate": 4, "depositNST": 1, "nstUpdate": 1, "regToken": 3, "regChain": 2, "updToken": 1, "rawCall": 14, "depositTok": 3} {
 		w[k] = v
 	}
-	base.Gen = GenOpts{Weights: w, HostilePct: 15, ExtremePct: 4, MaxDt: 40, Tempos: []int{7, 21, 45}, Dynamic: avsDynamic, Anchor: true}
+	base.Gen = GenOpts{Weights: w, HostilePct: 15, ExtremePct: 4, MaxDt: 40, Tempos: []int{7, 21, 45}, Dynamic: avsDynamic, Anchor: true, WideChains: true}
 	base.Config = avsConfig
 	base.MinSteps, base.MaxSteps = 30, 100
 	registerWorldProp(&base)
